@@ -64,6 +64,28 @@ def wide_partial_case(draw, tier):
     return {"model": spec, "pi": pi, "extra": extra}
 
 
+@st.composite
+def scale_partial_case(draw, tier):
+    """LARGE models (hundreds of nodes / children / rules), all but a handful of leaves given as constants, 3-9 leaves left
+    open or given as intervals"""
+    spec = draw(S.scale_spec(allow_const=True))
+    lv = oracle.spec_leaves(spec)
+    ids = sorted(lv)
+    open_at = set(draw(st.lists(st.integers(0, len(ids) - 1), min_size=min(3, len(ids)), max_size=min(9, len(ids)), unique=True)))
+    bits = draw(st.integers(0, 2 ** 62))
+    dens = draw(st.sampled_from([0, 1, 2, 3]))
+    pi = []
+    for j, i in enumerate(ids):
+        lo, hi = lv[i]
+        if j in open_at:
+            pi.append([0, 0, 0] if (hi - lo <= 1 or draw(st.booleans())) else [draw(st.sampled_from([2, 3])), lo, hi - 1])
+        else:
+            b1, b2 = (bits >> (j % 62)) & 1, (bits >> ((5 * j + 1) % 62)) & 1
+            v = [lo, hi if (b1 and b2) else lo, hi if b1 else lo, hi][dens]
+            pi.append([1, v, 0])
+    return {"model": spec, "pi": pi, "extra": []}
+
+
 def check_partial(case, ev):
     import puan
     spec = case["model"]
@@ -126,7 +148,7 @@ def check_partial(case, ev):
         pts = itertools.product(*[range(lo, hi + 1) for lo, hi in open_box])
         mode = "enumerated"
     else:
-        corners = list(itertools.product(*[(lo, hi) if lo != hi else (lo,) for lo, hi in open_box]))[:512]
+        corners = list(itertools.islice(itertools.product(*[(lo, hi) if lo != hi else (lo,) for lo, hi in open_box]), 512))
         folded = [tuple(lo + (v % (hi - lo + 1)) for v, (lo, hi) in zip(e, open_box)) for e in case["extra"]]
         pts = corners + folded
         mode = "corners+sampled"
@@ -233,7 +255,7 @@ def empty(slice_i, n):
         yield {"model": spec}
 
 def parts(tier):
-    return [Part("flag_empty0", enumerate_cases=(lambda t: empty(0, 1)), check=check_flags, time_quick=120.0), Part("partial_empty0", enumerate_cases=(lambda t: ({"model": c_["model"], "pi": [[0, 0, 0]] * 4, "extra": []} for c_ in empty(0, 1))), check=check_partial, time_quick=120.0), Part("wide_nodes", strategy=lambda t: wide_partial_case(t), check=check_partial, quick=(3, 250), thorough=(6, 2500))] + [Part("flag_shapes%d" % i, enumerate_cases=(lambda t, i=i: shapes(i, 2)), check=check_flags, time_quick=120.0) for i in range(2)] + \
+    return [Part("scale", strategy=lambda t: scale_partial_case(t), check=check_partial, quick=(2, 40), thorough=(4, 500)), Part("flag_empty0", enumerate_cases=(lambda t: empty(0, 1)), check=check_flags, time_quick=120.0), Part("partial_empty0", enumerate_cases=(lambda t: ({"model": c_["model"], "pi": [[0, 0, 0]] * 4, "extra": []} for c_ in empty(0, 1))), check=check_partial, time_quick=120.0), Part("wide_nodes", strategy=lambda t: wide_partial_case(t), check=check_partial, quick=(3, 250), thorough=(6, 2500))] + [Part("flag_shapes%d" % i, enumerate_cases=(lambda t, i=i: shapes(i, 2)), check=check_flags, time_quick=120.0) for i in range(2)] + \
            [Part("partial_shapes%d" % i, enumerate_cases=(lambda t, i=i: shapes_partial(i, 4)), check=check_partial, time_quick=120.0) for i in range(4)] + [
         Part("partial", strategy=lambda t: partial_case(t), check=check_partial, quick=(6, 350), thorough=(12, 2500)),
         Part("flags", strategy=lambda t: S.model_spec(depth=3, allow_fix=True, allow_const_leaves=True,
